@@ -36,6 +36,27 @@ add('C10', 'E1+E2', 'exploration',
     'option values come from fixed menus; default_scale is restated independently in the model; complex spiral steps get an extra |e| eps phase allowance for the float complex power.',
     'DESIGN.md section 5/C10')
 
+add('C12', 'E1', 'exploration',
+    'bounded-exhaustive enumeration of every Bicomplex function/operator (and all depth-2 compositions) x base points x perturbation patterns on the real class; reference = idempotent decomposition in 120-digit arithmetic, component-wise Taylor-majorant allowance',
+    'Every function and operator the class defines, reflected forms, integer/real/bicomplex powers and (thorough) all depth-2 compositions are executed on the real class at every base point of the pool with all 32 sign/size perturbation patterns and the step shapes the multicomplex method itself uses; each of the four components is compared with the holomorphic extension within 1e3 eps times the absolute Taylor majorant of that component; z2=0 reduction and (2,3)-array arguments included. Complete enumeration of this finite alphabet is what the statement (for every function, every argument near the real domain) can be decided on.',
+    'base points and perturbation sizes come from fixed pools; perturbations beyond a quarter of the (conservatively estimated) analyticity radius are skipped; allowance constant C=1e3 applied to the scale oracle S_k/k! (DESIGN 4.2).',
+    'DESIGN.md section 5/C12')
+add('C13', 'E1', 'exploration',
+    'bounded-exhaustive enumeration of float triples (all 24^3 special-value triples, all geometric transients of the grid, arrays) on the real dea3; exact Shanks transform in rationals with a derived running-error bound',
+    'All triples of the special-value alphabet (including ties, zeros, 1e+-150), all geometric transients of the (L, a, q, k) grid formed exactly and rounded once, and arrays of four shapes with and without symmetric=True are pushed through the real dea3 and compared with the exact Shanks transform of the float triple; guards evaluated exactly; totality, input immutability, elementwise and symmetric trimming checked on every case.',
+    'values restricted to the stated alphabets (|x| in [1e-300, 1e150] or 0); accuracy claimed where the relative error of the computed sss is <= 1/4, conditioning of the transient bounded by exact partial derivatives.',
+    'DESIGN.md section 5/C13')
+add('C14', 'E2', 'model_checking',
+    'explicit-state search over term sequences on the real Dea/EpsAlg objects (deepcopy snapshots, exact state digests), every transition checked against invariants and an exact rational epsilon table',
+    'The objects are stateful and fed one term at a time; the state space is explored exhaustively: every sequence over an 8-symbol alphabet to depth 6 (7 thorough) for each table size, every short prefix followed by every constant or 2-periodic continuation to 60 (200) terms for limexp up to 60, every model sequence L + sum a_i q_i^n on every prefix. States are merged only on an exact digest of the object fields, so merged states have identical futures. Every transition is a real method call, so there is no model/implementation gap to validate.',
+    'terms stay normal and of moderate magnitude; alphabets and table sizes as stated; Dea vs dea3 error estimates are compared outside the documented guards only (inside them the two routines document different conventions).',
+    'DESIGN.md section 5/C14')
+add('C19', 'E1', 'exploration',
+    'bounded-exhaustive enumeration of (n, m, map, method, step, bounds pattern, args/kwds) on the real nd_scipy wrappers with a recording user function; closed-form Jacobians and exact box predicates',
+    'Every cell of the stated product is executed on the real wrappers with a recording function: shapes, closed-form Jacobian entries within a derived truncation+rounding allowance, argument forwarding by identity, and every recorded evaluation point inside the box exactly.',
+    'dimensions n <= 6, m <= 5, maps from the affine/ridge families; degenerate equal bounds: the constrained column is not claimed for real-step methods (scipy documents that no step fits).',
+    'DESIGN.md section 5/C19')
+
 NOT_YET = {}
 
 ENGINES = [
